@@ -99,7 +99,11 @@ func cmdRun(args []string) int {
 	}
 	if *pinit != "" {
 		for _, p := range strings.Split(*pinit, ",") {
-			ec.PathInit = append(ec.PathInit, snapd+"/"+p)
+			if strings.Contains(p, ".") {
+				ec.PathInit = append(ec.PathInit, p)
+			} else {
+				ec.PathInit = append(ec.PathInit, snapd+"/"+p)
+			}
 		}
 	} else {
 		ec.PathInit = []string{snapd + "/" + *pkg}
